@@ -143,7 +143,15 @@ func init() {
 		classes: docgen.Classes{"addkey": true, "delopt": true, "bound": true},
 		own:     func(d docgen.Doc, mr model.Result) bool { return mr.V == model.Accept },
 		values:  true, byValue: true, addProps: true, defaults: false,
-		extra: func(ctx *Ctx, i int, r *sg.Rng) *sem.Case { return sameRefTextTwinCase(ctx, i, r, ctx.N(18, 120)) },
+		extra: func(ctx *Ctx, i int, r *sg.Rng) *sem.Case {
+			if c := sameRefTextTwinCase(ctx, i, r, ctx.N(18, 120)); c != nil {
+				return c
+			}
+			if k := i - ctx.N(18, 120); k >= 0 && k < 10 {
+				return formatCase(k)
+			}
+			return nil
+		},
 		args: func(r *sg.Rng, root *sg.Schema) []string {
 			var a []string
 			// anyOf + --min-sized-ints: the merged struct's sized fields reject values another branch admits
@@ -175,7 +183,16 @@ func init() {
 		nQuick: 500, nThor: 8000, valid: 8, perSite: 2, maxDocs: 40, minDec: 2000,
 		rule: "random schemas over the supported feature space (objects, nesting<=3, arrays, formats, enums, refs, additionalProperties); documents valid by construction (maximal, minimal, random; boundary-seeking) plus model-accepted variants; each is executed by the compiled generated code; deciding observation = verdict ok AND path-wise comparison of json.Marshal(&v) and json.Marshal(v) with the input; distinct_nontrivial = distinct (schema signature, document class) pairs with >=1 deciding observation",
 	})
-	twin := func(ctx *Ctx, i int, r *sg.Rng) *sem.Case { return sameRefTextTwinCase(ctx, i, r, ctx.N(12, 90)) }
+	twin := func(ctx *Ctx, i int, r *sg.Rng) *sem.Case {
+		if c := sameRefTextTwinCase(ctx, i, r, ctx.N(12, 90)); c != nil {
+			return c
+		}
+		// then allOf branches that require / retype each other's keys
+		if k := i - ctx.N(12, 90); k >= 0 && k < ctx.N(8, 32) {
+			return crossBranchCase(k, r)
+		}
+		return nil
+	}
 	regSem(&semSpec{id: "C03", extra: twin,
 		opts:    sg.Opts{MaxDepth: 3, PNullable: 0.3, PAddProps: 0.35, NullType: true, RootKinds: true, AddPropsTrue: true, W: map[string]float64{"map": 2.5}},
 		classes: docgen.Classes{"type": true, "nullok": true, "nullreq": true, "addkey": true},
@@ -200,7 +217,10 @@ func init() {
 	})
 	regSem(&semSpec{id: "C07",
 		extra: func(ctx *Ctx, i int, r *sg.Rng) *sem.Case {
-			if i >= ctx.N(12, 60) {
+			if i == ctx.N(24, 96) {
+				return sharedNodeWitness()
+			}
+			if i > ctx.N(24, 96) {
 				return nil
 			}
 			return sharedNodeCase(i, r)
@@ -523,48 +543,96 @@ func sameRefTextTwinCase(ctx *Ctx, i int, r *sg.Rng, limit int) *sem.Case {
 	return a
 }
 
-// sharedNodeCase: a definition that is used on its own AND as an earlier member of an allOf whose later member
-// redeclares the same properties with complementary keywords. The standalone use must keep the definition's own
-// rules (no later member may leak into it through shared schema nodes), the composition must enforce both.
+// sharedNodeCase: a definition that is used on its own AND as a member of allOf/anyOf compositions. Variant A
+// (i%2==0): one composition whose later member redeclares the definition's properties with complementary keywords -
+// the standalone use must keep the definition's own rules, the composition must enforce both. Variant B (i%2==1): two
+// compositions over the same definition with different sibling properties - each exposes and enforces its own
+// members only. (Both together is the recorded finding allof-shared-def-polluted: pinned witness sharedNodeWitness.)
 func sharedNodeCase(i int, r *sg.Rng) *sem.Case {
 	base := &sg.Schema{Types: []string{"object"}, Props: []sg.Prop{
 		{Name: "tags", S: &sg.Schema{Types: []string{"array"}, Items: &sg.Schema{Types: []string{"string"}}, MinItems: 1}},
 		{Name: "name", S: &sg.Schema{Types: []string{"string"}, MinLen: 2}},
 		{Name: "n", S: &sg.Schema{Types: []string{"integer"}, Min: sg.Fp(1)}},
 	}}
-	later := &sg.Schema{Types: []string{"object"}, Props: []sg.Prop{
-		{Name: "tags", S: &sg.Schema{Types: []string{"array"}, Items: &sg.Schema{Types: []string{"string"}}, MaxItems: 3}},
-		{Name: "name", S: &sg.Schema{Types: []string{"string"}, MaxLen: 5}},
-		{Name: "n", S: &sg.Schema{Types: []string{"integer"}, Max: sg.Fp(9)}},
-	}}
-	if i%2 == 1 {
-		later.Props = later.Props[:1+r.IntN(3)]
-	}
 	ref := func() *sg.Schema { return &sg.Schema{Ref: "#/$defs/Base", Target: base} }
-	comp := &sg.Schema{AllOf: []*sg.Schema{ref(), later}}
-	if i%3 == 2 {
-		comp = &sg.Schema{AnyOf: []*sg.Schema{ref(), later}}
-	}
 	root := &sg.Schema{Types: []string{"object"}, Defs: []sg.Prop{{Name: "Base", S: base}}}
-	// the order in which the two uses are generated follows the property names
-	if (i/3)%2 == 0 {
-		root.Props = []sg.Prop{{Name: "alone", S: ref()}, {Name: "limited", S: comp}}
-	} else {
-		root.Props = []sg.Prop{{Name: "zalone", S: ref()}, {Name: "limited", S: comp}}
+	alone := "alone"
+	if (i/2)%2 == 1 {
+		alone = "zalone" // the order in which the uses are generated follows the property names
 	}
-	alone := root.Props[0].Name
-	c := &sem.Case{Root: root, Sig: fmt.Sprintf("shared-node/%d", i%6)}
-	mk := func(key string, tags int, name string, n int64) docgen.Doc {
+	root.Props = []sg.Prop{{Name: alone, S: ref()}}
+	c := &sem.Case{Root: root, Sig: fmt.Sprintf("shared-node/%d", i%12)}
+	mk := func(key string, tags int, name string, n int64, extra ...jsonx.KV) docgen.Doc {
 		var a []any
 		for k := 0; k < tags; k++ {
 			a = append(a, fmt.Sprintf("t%d", k))
 		}
-		return docgen.Doc{V: jsonx.Obj{{K: key, V: jsonx.Obj{{K: "tags", V: a}, {K: "name", V: name}, {K: "n", V: jsonx.N(n)}}}}, Class: "sharednode", Label: key}
+		o := jsonx.Obj{{K: "tags", V: a}, {K: "name", V: name}, {K: "n", V: jsonx.N(n)}}
+		o = append(o, extra...)
+		return docgen.Doc{V: jsonx.Obj{{K: key, V: o}}, Class: "sharednode", Label: key}
 	}
-	for _, key := range []string{alone, "limited"} {
+	grid := func(key string) {
 		c.Docs = append(c.Docs, mk(key, 2, "abc", 5), mk(key, 4, "abc", 5), mk(key, 10, "abc", 5), mk(key, 2, "abcdefgh", 5), mk(key, 2, "abc", 50), mk(key, 0, "abc", 5), mk(key, 2, "a", 5), mk(key, 2, "abc", 0))
 	}
+	grid(alone)
+	if i%2 == 0 {
+		later := &sg.Schema{Types: []string{"object"}, Props: []sg.Prop{
+			{Name: "tags", S: &sg.Schema{Types: []string{"array"}, Items: &sg.Schema{Types: []string{"string"}}, MaxItems: 3}},
+			{Name: "name", S: &sg.Schema{Types: []string{"string"}, MaxLen: 5}},
+			{Name: "n", S: &sg.Schema{Types: []string{"integer"}, Max: sg.Fp(9)}},
+		}}
+		if (i/4)%2 == 1 {
+			later.Props = later.Props[:1+r.IntN(3)]
+		}
+		comp := &sg.Schema{AllOf: []*sg.Schema{ref(), later}}
+		if (i/8)%3 == 2 {
+			comp = &sg.Schema{AnyOf: []*sg.Schema{ref(), later}}
+		}
+		root.Props = append(root.Props, sg.Prop{Name: "limited", S: comp})
+		grid("limited")
+		return c
+	}
+	// variant B: two compositions, the shared definition first or last, allOf or anyOf
+	wheels := &sg.Schema{Types: []string{"object"}, Props: []sg.Prop{{Name: "wheels", S: &sg.Schema{Types: []string{"integer"}, Min: sg.Fp(3)}}}}
+	masts := &sg.Schema{Types: []string{"object"}, Props: []sg.Prop{{Name: "masts", S: &sg.Schema{Types: []string{"integer"}, Min: sg.Fp(1)}}, {Name: "rig", S: &sg.Schema{Types: []string{"string"}, MaxLen: 4}}}}
+	order := func(a, b *sg.Schema, flip bool) []*sg.Schema {
+		if flip {
+			return []*sg.Schema{b, a}
+		}
+		return []*sg.Schema{a, b}
+	}
+	car := &sg.Schema{AllOf: order(ref(), wheels, (i/4)%2 == 1)}
+	ship := &sg.Schema{AllOf: order(ref(), masts, (i/8)%2 == 1)}
+	allOfBoth := (i/16)%3 != 2
+	if !allOfBoth {
+		ship = &sg.Schema{AnyOf: order(ref(), masts, (i/8)%2 == 1)}
+	}
+	root.Props = append(root.Props, sg.Prop{Name: "car", S: car}, sg.Prop{Name: "ship", S: ship})
+	kv := func(k string, v any) jsonx.KV { return jsonx.KV{K: k, V: v} }
+	grid("car")
+	c.Docs = append(c.Docs, mk("car", 2, "abc", 5, kv("wheels", jsonx.N(4))), mk("car", 2, "abc", 5, kv("wheels", jsonx.N(1))),
+		// the other composition's members are undeclared keys here: any value is fine
+		mk("car", 2, "abc", 5, kv("wheels", jsonx.N(4)), kv("masts", jsonx.N(0))), mk("car", 2, "abc", 5, kv("masts", "none"), kv("rig", "toolongvalue")))
+	if allOfBoth {
+		grid("ship")
+		c.Docs = append(c.Docs, mk("ship", 2, "abc", 5, kv("masts", jsonx.N(2))), mk("ship", 2, "abc", 5, kv("masts", jsonx.N(0))), mk("ship", 2, "abc", 5, kv("rig", "toolong")),
+			mk("ship", 2, "abc", 5, kv("masts", jsonx.N(2)), kv("wheels", jsonx.N(1))), mk("ship", 2, "abc", 5, kv("wheels", "none")))
+	}
 	return c
+}
+
+// sharedNodeWitness is the pinned witness of the recorded finding allof-shared-def-polluted: the later member of the
+// first composition redeclares properties of the shared definition, and a second composition over the same definition
+// (generated afterwards) inherits those limits.
+func sharedNodeWitness() *sem.Case {
+	base := &sg.Schema{Types: []string{"object"}, Props: []sg.Prop{{Name: "name", S: &sg.Schema{Types: []string{"string"}, MinLen: 2}}, {Name: "n", S: &sg.Schema{Types: []string{"integer"}, Min: sg.Fp(1)}}}}
+	ref := func() *sg.Schema { return &sg.Schema{Ref: "#/$defs/Base", Target: base} }
+	later := &sg.Schema{Types: []string{"object"}, Props: []sg.Prop{{Name: "name", S: &sg.Schema{Types: []string{"string"}, MaxLen: 5}}, {Name: "n", S: &sg.Schema{Types: []string{"integer"}, Max: sg.Fp(9)}}}}
+	wheels := &sg.Schema{Types: []string{"object"}, Props: []sg.Prop{{Name: "wheels", S: &sg.Schema{Types: []string{"integer"}, Min: sg.Fp(3)}}}}
+	root := &sg.Schema{Types: []string{"object"}, Defs: []sg.Prop{{Name: "Base", S: base}}, Props: []sg.Prop{
+		{Name: "limited", S: &sg.Schema{AllOf: []*sg.Schema{ref(), later}}}, {Name: "vehicle", S: &sg.Schema{AllOf: []*sg.Schema{ref(), wheels}}}}}
+	doc := jsonx.Obj{{K: "vehicle", V: jsonx.Obj{{K: "name", V: "abcdefgh"}, {K: "n", V: jsonx.N(50)}, {K: "wheels", V: jsonx.N(4)}}}}
+	return &sem.Case{Root: root, Sig: "witness:allof-shared-def-polluted", NoAuto: true, Witness: "allof-shared-def-polluted", Docs: []docgen.Doc{{V: doc, Class: "pinned", Label: "witness"}}}
 }
 
 // collisionTripleCase: three definition (or property) names that normalise to one Go identifier, with schemas A, B, B'
@@ -746,4 +814,32 @@ func corpusCases(ctx *Ctx, salt string) []*sem.Case {
 		out = append(out, c)
 	}
 	return out
+}
+
+// formatCase: one format-typed string at every kind of position, one document per canonical sample text (incl. the
+// ends of the representable range: year 0001 / 0999 / 9999, nanoseconds, +14:00 and -12:00 offsets, leap day).
+func formatCase(i int) *sem.Case {
+	formats := []string{"date", "time", "date-time", "ipv4", "ipv6"}
+	f := formats[i%len(formats)]
+	fs := func() *sg.Schema { return &sg.Schema{Types: []string{"string"}, Format: f} }
+	def := fs()
+	root := &sg.Schema{Types: []string{"object"}, Defs: []sg.Prop{{Name: "Stamp", S: def}}, Props: []sg.Prop{
+		{Name: "req", S: fs()}, {Name: "opt", S: fs()}, {Name: "nul", S: &sg.Schema{Types: []string{"string", "null"}, Format: f}},
+		{Name: "list", S: &sg.Schema{Types: []string{"array"}, Items: fs()}},
+		{Name: "nested", S: &sg.Schema{Types: []string{"object"}, Props: []sg.Prop{{Name: "at", S: fs()}}, Required: []string{"at"}}},
+		{Name: "viaRef", S: &sg.Schema{Ref: "#/$defs/Stamp", Target: def}},
+	}, Required: []string{"req"}}
+	c := &sem.Case{Root: root, Sig: "format/" + f}
+	if (i/len(formats))%2 == 1 {
+		c.Args = []string{"--extra-imports"}
+	}
+	samples := docgen.FormatSamples[f]
+	for k, sv := range samples {
+		other := samples[(k+1)%len(samples)]
+		c.Docs = append(c.Docs,
+			docgen.Doc{V: jsonx.Obj{{K: "req", V: sv}}, Class: "format", Label: "required-only"},
+			docgen.Doc{V: jsonx.Obj{{K: "req", V: sv}, {K: "opt", V: other}, {K: "nul", V: sv}, {K: "list", V: []any{sv, other}}, {K: "nested", V: jsonx.Obj{{K: "at", V: sv}}}, {K: "viaRef", V: other}}, Class: "format", Label: "everywhere"},
+			docgen.Doc{V: jsonx.Obj{{K: "req", V: other}, {K: "nul", V: nil}, {K: "list", V: []any{}}}, Class: "format", Label: "null-and-empty"})
+	}
+	return c
 }
